@@ -48,6 +48,8 @@ def remove_unused_self_cls(source: str) -> str:
             if first_arg_name in instance_access_names:
                 # Should be non-static and non-classmethod
                 continue
+            if any(core.walk(funcdef, ast.Call(func=ast.Name(id="super"), args=[]))):
+                continue  # super() without arguments uses the first argument
             static_access_names = {
                 node.id for node in static_accesses if node.id not in instance_access_names
             }
